@@ -64,8 +64,111 @@ func ctxMain(args []string) {
 		}()
 	}
 	wg.Wait()
+	if cf.replay == "" {
+		k := 2
+		if cf.tier == "thorough" {
+			k = 20
+		}
+		for i := 0; i < k && !sum.tooMany(); i++ {
+			afterCompletedStream(rand.New(rand.NewSource(cf.seed*1000+int64(i))), sum)
+			n++
+		}
+	}
 	sum.Cases = n
 	sum.finish(start, cf.out)
+}
+
+// afterCompletedStream: a server-stream correctable call under a long-lived context completes through its
+// quorum function (every node has sent one update); only then — 30 ms later, when the call's goroutine has long
+// returned and removed its routers — do the servers stream further updates for it.  Those updates belong to a
+// finished call and are dropped; calls with deadlines on the same nodes keep returning.  (This is not the known
+// finding C09/stream-backpressure, which needs updates that arrive while the completed call's routers still
+// exist, i.e. before its goroutine has returned.)
+func afterCompletedStream(r *rand.Rand, sum *sumT) {
+	sh, err := newShard(3)
+	if err != nil {
+		fatal(err)
+	}
+	defer func() { go sh.close() }()
+	more := make(chan struct{})
+	extra := 6 + r.Intn(10)
+	sh.cl.D.KeepLog = false
+	sh.cl.D.Default = func(server int, method, val string) *puppet.Script {
+		s := puppet.NewScript()
+		s.Action = puppet.Reply
+		s.Release = "early"
+		if puppet.Info[method].Kind == "stream" {
+			s.Stream = []puppet.StreamStep{{Value: 1}}
+			for i := 0; i < extra; i++ {
+				s.Stream = append(s.Stream, puppet.StreamStep{Gate: more, Value: int64(2 + i)})
+			}
+		}
+		return s
+	}
+	sh.qs.F = func(method, req string, replies map[uint32]int64) (int64, int, bool, bool) {
+		return 0, len(replies), len(replies) >= 3, true
+	}
+	caseS := fmt.Sprintf("after-completed-stream extra-updates-per-node=%d", extra)
+	session, endSession := context.WithCancel(context.Background())
+	defer endSession()
+	c := sh.all.CorrectableStream(session, &dev.Request{Value: "acs|0|x"})
+	select {
+	case <-c.Done():
+	case <-time.After(3 * time.Second):
+		sum.mismatch(Mismatch{Property: "C08", Case: caseS, Expected: "the stream call completes when its quorum function reports done", Observed: "not done after 3 s"})
+		return
+	}
+	time.Sleep(30 * time.Millisecond)
+	close(more) // the servers stream on for the completed call
+	time.Sleep(50 * time.Millisecond)
+	type resT struct {
+		kind string
+		late bool
+	}
+	kinds := []string{"rpc", "qc", "mcast", "rpc", "async"}
+	res := make(chan resT, len(kinds))
+	for i, kind := range kinds {
+		go func(i int, kind string) {
+			ctx, cancel := context.WithTimeout(context.Background(), 300*time.Millisecond)
+			defer cancel()
+			done := make(chan struct{})
+			go func() {
+				defer close(done)
+				defer func() { recover() }()
+				req := &dev.Request{Value: fmt.Sprintf("acs-after%d|0|x", i)}
+				switch kind {
+				case "rpc":
+					sh.node(uint32(1+i%3)).GRPCCall(ctx, req)
+				case "qc":
+					sh.all.QuorumCall(ctx, req)
+				case "async":
+					sh.all.QuorumCallAsync(ctx, req).Get()
+				case "mcast":
+					sh.all.Multicast(ctx, req)
+				}
+			}()
+			select {
+			case <-done:
+				res <- resT{kind, false}
+			case <-time.After(300*time.Millisecond + 2*time.Second):
+				res <- resT{kind, true}
+			}
+		}(i, kind)
+	}
+	var late []string
+	for range kinds {
+		if x := <-res; x.late {
+			late = append(late, x.kind)
+		}
+	}
+	if len(late) > 0 {
+		w := diagnose()
+		sum.mismatch(Mismatch{Property: "C08", Case: caseS, Expected: "calls with a 300 ms deadline on the same nodes return within 2 s of their deadline", Observed: fmt.Sprintf("still running: %v (goroutine signature: %s)", late, w.id),
+			Detail: strings.Join(signatures(w.dump), "; ")})
+	}
+	sum.count("kind:after-completed-stream")
+	sum.nontrivial(fmt.Sprintf("after-completed-stream/%d/%v", extra, len(late) > 0))
+	sum.sample(caseS + fmt.Sprintf(" => late calls: %v", late))
 }
 
 func ctxScenario(r *rand.Rand, sum *sumT) {
